@@ -347,3 +347,30 @@ PROPS["C17"] = dict(
     unproved=["'never later': that the fault IS declared once max timeouts have elapsed needs the loop to wake up (liveness, C03/C02)",
               "the bound in un-suspended time (the theorems bound wall-clock time; suspension pauses the counters, see C19)"],
 )
+
+PROPS["C10"] = dict(
+    title="Cancel ends both sides and never leaves a partial file",
+    module="Cfdp.Props.C10",
+    namespace="Cfdp.Loop",
+    theorems=["C10_no_partial", "C10_cancel_freezes", "Cfdp.Recv.C10_recv_cancel", "Cfdp.Recv.C10_recv_peer_cancel",
+              "Cfdp.Recv.C10_recv_cancel_ends", "Cfdp.Send.C10_send_cancel", "Cfdp.Send.C10_send_cancel_ends"],
+    engines=["recv", "send"],
+    design="§6 C10",
+    technique="Lean 4 proofs over the receiver / sender models and the task-loop step (filestore frame + cancel handshake steps) + differential correspondence",
+    level_text=("Kernel-checked: for every event a loop iteration can see, the filestore changes only if the receive transaction was still in ReceiveData and - unless the user "
+                "configured CheckLimitReached to be ignored - the metadata and every byte below the announced size had arrived (C10_no_partial: the destination name is "
+                "written by a completed delivery only, never by a cancel, fault, timeout or partial transfer); a cancel leaves the filestore as it is and from then on no "
+                "history of events changes it (C10_cancel_freezes, with C04_final). Handshake steps: a user cancel at the receiver = Cancelled phase, condition "
+                "CancelReceived, Finished indication with that condition, and a Finished PDU with it queued (acknowledged mode, or closure) or immediate end (C10_recv_cancel); "
+                "an EOF with an error condition cancels the receiver with that condition (C10_recv_peer_cancel); the cancelled receiver ends on ACK(Finished) or by Abandon "
+                "at the positive-ACK limit (C10_recv_cancel_ends); a user cancel at the sender = Cancelled phase and an EOF with condition CancelReceived and the sender's "
+                "entity id as fault location queued (C10_send_cancel), transmitted when the link is free, and the sender ends by Abandon at the ACK / inactivity limit "
+                "(C10_send_cancel_ends). Bounded time of those ends: C17 + C03. Tie to the code: recv/send engines with cancel injected before/after every PDU."),
+    level_note=RECV_SEND_NOTE + " Both-sides-end over a real link (two daemons) is exercised by the daemon engine (C02/C11) when registered; here each side is proved separately.",
+    rule=("recv + send engines as in C04/C07: one history in three contains a user request at a random position (cancel / suspend-resume / EOF(cancel) from the peer / report), "
+          "followed by losses of the handshake PDUs (wind-down rounds without answers) or the ACK at a random round. Oracles no_partial (filestore listing before/after every "
+          "step), cancel_closure_finished. Non-trivial = a PDU was emitted or an indication raised."),
+    assumptions=["C10_no_partial second part: the handler configured for CheckLimitReached is not Ignore (with Ignore an incomplete unacknowledged transfer is stored on purpose, "
+                 "with delivery code Incomplete - finding F31)"],
+    unproved=["that both entities end with the cancel condition over a real two-party exchange (needs the composition of both models; daemon engine)"],
+)
